@@ -61,6 +61,14 @@ def generate(rng, n, tier="quick"):
         ops.append({"op": "render", "reg": 0, "api": "render", "name": "main", "data": enc(data)})
         case = {"kind": "session", "regs": [cfg], "ops": ops, "id": "%s-%06d" % (ID, i)}
         out.append((case, meta))
+    # directed: strictness after a decorator replaced the context (repaired defect F17)
+    for k, (tpl, exp) in enumerate([("{{*setctx this}}[{{nope}}]", "MissingVariable"), ("{{*setctx o}}[{{len nope}}]", "ParamNotFoundForName")]):
+        ops = [{"op": "reg_string", "reg": 0, "name": "main", "src": tpl},
+               {"op": "render", "reg": 0, "api": "render", "name": "main", "data": enc({"o": {"x": 1}})},
+               {"op": "set_strict", "reg": 0, "v": True},
+               {"op": "render", "reg": 0, "api": "render", "name": "main", "data": enc({"o": {"x": 1}})}]
+        case = {"kind": "session", "regs": [{"escape": "html", "decorators": [{"name": "setctx", "kind": "setctx"}]}], "ops": ops, "id": "%s-d%d" % (ID, k)}
+        out.append((case, {"mode": "ast", "strict": ["musterr", [exp]], "loose": ["any", ""]}))
     return out
 
 
